@@ -248,7 +248,7 @@ func TestC01RandomBytes(t *testing.T) {
 func TestC01GeneratedValid(t *testing.T) {
 	run := h.Begin("C01", "generated-valid", "rapid: grammar-generated valid programs (depth<=8) with random layouts; oracle: accepted, complete tree, whole input consumed; non-trivial: >=5 nodes; distinct by text")
 	defer run.End(t)
-	h.RapidSetup(h.N(2000, 100000), "c01valid")
+	h.RapidSetup(h.N(2000, 400000), "c01valid")
 	rapid.Check(t, func(rt *rapid.T) {
 		ast := genExpr(rt, &syntaxCfg, rapid.IntRange(1, 8).Draw(rt, "depth"), ref.LvComma)
 		toks := ast.Flatten()
